@@ -275,6 +275,8 @@ def check_seq(case):
 def _check_case(case):
     if case['f'] == 'derive':
         return check_derive(case)
+    if case['f'] == 'related':
+        return check_related(case)
     dis = []
     spec = expected_spec(case)
     exp = ref.encode(spec['levels'], spec['times'], spec['curves'],
@@ -526,6 +528,106 @@ PRE_USES = {'e': lambda env: env._envgen_format(),
             'i': lambda env: env._interpolation_format(),
             'a': lambda env: env._at(0.25),
             'c': lambda env: env._as_control_input()}
+
+
+# ---------------------------------------------------------------------------
+# Related envelopes: a chain e0 -> e1 (-> e2) in which each object is made
+# from the previous one by range / exprange / curverange / copy.copy /
+# copy.deepcopy; each object is used or not (encoded, evaluated, read as a
+# control input); then ONE of them is changed through the public API (the
+# duration setter is the only public mutator of a plain specification).
+# Afterwards every object is an envelope specification of its own: the changed
+# one must encode / evaluate as its public attributes say, the others as their
+# attributes said BEFORE the change (nobody changed them).
+
+def _link(env, link):
+    if link[0] == 'copy':
+        return copy.copy(env)
+    if link[0] == 'deepcopy':
+        return copy.deepcopy(env)
+    return getattr(env, link[0])(*link[1:])
+
+
+def _judge(obj, spec, prefix, note):
+    """obj must encode and evaluate as `spec` -> (disagreements, outcome)"""
+    dis = []
+    exp = ref.encode(spec['levels'], spec['times'], spec['curves'],
+                     spec['rel'], spec['loop'])
+    try:
+        obs = _plain(obj._envgen_format())
+    except Exception as e:
+        return [(f'{prefix}-raises-{type(e).__name__}', exp, _exc(e),
+                 note)], None
+    if not single_channel(obs):
+        return [(prefix + '-not-single-channel', [exp], obs, note)], obs
+    dis += [(k, e_, o_, f'{note}; {det}') for k, e_, o_, det in
+            cmp_array(prefix, exp, obs[0], set(), slot_name)]
+    dis += check_control_input(obj, prefix, exp, spec, {})[:1]
+    offsets = [spec['offset']] if spec['offset'] == 0 \
+        else [spec['offset'], 0]
+    adis, ats = eval_at(obj, spec['levels'], spec['times'], spec['curves'],
+                        offsets, exp, shape_kinds=False)
+    dis += [(f'{prefix}-{k}', e_, o_, f'{note}; {det}')
+            for k, e_, o_, det in adis]
+    return dis, [obs, ats]
+
+
+def check_related(case):
+    dis, outcome = [], {}
+    early = case['when'] == 'early'
+    try:
+        objs = [make_env(case['base'])]
+        if early:
+            for ch in case['pre'][0]:
+                PRE_USES[ch](objs[0])
+        for i, link in enumerate(case['links'], 1):
+            objs.append(_link(objs[-1], link))
+            if early:
+                for ch in case['pre'][i]:
+                    PRE_USES[ch](objs[i])
+        if not early:
+            for obj, uses in zip(objs, case['pre']):
+                for ch in uses:
+                    PRE_USES[ch](obj)
+    except Exception as e:
+        # base / mapping are judged by the other families
+        return [], {'setup-raised': _exc(e)}
+    before = [attr_spec(o) for o in objs]
+    op, target = case['op'], case['target']
+    try:
+        if op[0] == 'duration':
+            objs[target].duration = op[1]
+    except Exception as e:
+        return [], {'op-raised': _exc(e)}
+    for i, obj in enumerate(objs):
+        changed = op[0] != 'none' and i == target
+        role = 'target' if changed else 'bystander'
+        spec = attr_spec(obj) if changed else before[i]
+        if spec is None:
+            outcome[str(i)] = 'not-a-plain-specification'
+            continue
+        note = (f'object {i} of chain base{case["links"]} ({role}) after '
+                f'{op} on object {target}; specification '
+                f'{spec["levels"]} {spec["times"]} {spec["curves"]}')
+        if not changed:
+            now = attr_spec(obj)
+            if now is None or any(now[k] != spec[k] for k in
+                                  ('levels', 'times', 'curves', 'rel',
+                                   'loop', 'offset')):
+                dis.append(('related-bystander-attributes-changed',
+                            [spec['levels'], spec['times'], spec['curves']],
+                            None if now is None else
+                            [now['levels'], now['times'], now['curves']],
+                            note))
+        d, out = _judge(obj, spec, 'related-' + role, note)
+        dis += d
+        outcome[str(i)] = out
+    seen, uniq = set(), []
+    for d in dis:
+        if d[0] not in seen:
+            seen.add(d[0])
+            uniq.append(d)
+    return uniq, outcome
 
 
 def check_derive(case):
@@ -800,6 +902,8 @@ def is_nontrivial(case):
         return bool(case['pre'])    # the object was used before it changed
     if case['f'] == 'seq':
         return True                 # another envelope was encoded just before
+    if case['f'] == 'related':
+        return case['op'][0] != 'none' and len(case['links']) > 0
     if case['f'] == 'env':
         if case['levels'] == D or case['levels'] is None or \
                 times_defaulted(case['times']):
@@ -1052,6 +1156,30 @@ def _subst(x, u):
     return u if x == 'U' else x
 
 
+def gen_related(p, shard, of):
+    """bases x chains of links x per-object earlier uses (early = right after
+    the object was made, late = after the whole chain was made) x the object
+    that is changed x the change."""
+    idx = 0
+    for base in derive_bases(p):
+        for links in p['chains']:
+            nobj = len(links) + 1
+            mine = idx % of == shard
+            idx += 1
+            if not mine:
+                continue
+            for pre in itertools.product(p['pre'], repeat=nobj):
+                for when in ('early', 'late'):
+                    if when == 'late' and not any(pre):
+                        continue        # same as early
+                    for op in p['ops']:
+                        for target in ([0] if op[0] == 'none'
+                                       else range(nobj)):
+                            yield {'f': 'related', 'base': base,
+                                   'links': links, 'pre': list(pre),
+                                   'when': when, 'op': op, 'target': target}
+
+
 def gen_seq(p, shard, of):
     """All ordered pairs of different specifications of a small set.  The
     top level 'U' of both specifications is a value that no other pair uses
@@ -1074,7 +1202,7 @@ def gen_seq(p, shard, of):
 
 GENS = {'env': gen_env, 'ctor': gen_ctor_params, 'step': gen_step,
         'points': gen_points, 'derive': gen_derive, 'seq': gen_seq,
-        'defaults': gen_defaults}
+        'defaults': gen_defaults, 'related': gen_related}
 
 
 def families(tier):
@@ -1342,6 +1470,29 @@ def families(tier):
                 ['curverange', 0, 4, 2], ['duration', 3],
                 ['duration', 0.75]],
         'pre': ['', 'e', 'i', 'a', 'c', 'ei']}, 16))
+    # 11b. envelopes related by copying (range / exprange / curverange /
+    #      copy.copy / copy.deepcopy, chains of one or two links), each used
+    #      or not, then one of them changed: every object still encodes and
+    #      evaluates as its own specification, the others are unchanged
+    one = [[['range']], [['range', -1, 3]], [['exprange']], [['curverange']],
+           [['copy']], [['deepcopy']]]
+    two = [[['range'], ['exprange']], [['copy'], ['range']],
+           [['range'], ['copy']], [['deepcopy'], ['curverange']]]
+    if not q:
+        names = [['range'], ['exprange'], ['curverange'], ['copy'],
+                 ['deepcopy']]
+        two = [[a, b] for a in names for b in names]
+    fams.append(('env-related', 'related', {
+        'n': [2] if q else [1, 2], 'L': [0, 1, 2],
+        'times': [[1, 2]] if q else [0.5, [1, 2]],
+        'curves': [['sin', 'hold']] if q else ['lin', ['sin', 'hold']],
+        'nodes': [[None, None]] if q else [[None, None], [1, 0]],
+        'ctors': [['perc', {}], ['adsr', {}],
+                  ['pairs', {'pairs': [[0.5, 0], [1, 2], [2, 1]]}]],
+        'chains': one + two,
+        'pre': ['', 'e', 'a'] if q else ['', 'e', 'a', 'c', 'i'],
+        'ops': [['none'], ['duration', 3]] if q
+        else [['none'], ['duration', 3], ['duration', 0.75]]}, 16))
     # 12. another envelope was encoded just before (all ordered pairs of a
     #     small set of specifications that differ in one or more fields)
     fams.append(('env-after-other', 'seq', {
@@ -1416,6 +1567,33 @@ def call_text(case):
     return f"Env.{case['name']}({args_text([], case['args'])})"
 
 
+def related_text(head, case):
+    uses = {'e': '{}._envgen_format()', 'i': '{}._interpolation_format()',
+            'a': '{}._at(0.25)', 'c': '{}._as_control_input()'}
+
+    def use(i):
+        return ''.join(uses[ch].format(f'e{i}') + '\n'
+                       for ch in case['pre'][i])
+    early = case['when'] == 'early'
+    txt = head + f"import copy\ne0 = {call_text(case['base'])}\n"
+    txt += use(0) if early else ''
+    for i, ln in enumerate(case['links'], 1):
+        if ln[0] in ('copy', 'deepcopy'):
+            txt += f'e{i} = copy.{ln[0]}(e{i - 1})\n'
+        else:
+            txt += (f"e{i} = e{i - 1}.{ln[0]}("
+                    f"{', '.join(repr(x) for x in ln[1:])})\n")
+        txt += use(i) if early else ''
+    if not early:
+        txt += ''.join(use(i) for i in range(len(case['links']) + 1))
+    if case['op'][0] == 'duration':
+        txt += f"e{case['target']}.duration = {case['op'][1]!r}\n"
+    for i in range(len(case['links']) + 1):
+        txt += (f'print(e{i}.levels, e{i}.times, e{i}._envgen_format(), '
+                f'[e{i}._at(k / 8) for k in range(0, 33)])\n')
+    return txt
+
+
 def standalone(case):
     head = ("import sc3; sc3.init('nrt')\n"
             "from sc3.synth.envelope import Env\n")
@@ -1425,6 +1603,8 @@ def standalone(case):
                 f"e = {call_text(case['second'])}\n"
                 "print(e._envgen_format())\n"
                 "print([e._at(k / 8) for k in range(0, 33)])\n")
+    if case['f'] == 'related':
+        return related_text(head, case)
     if case['f'] == 'derive':
         uses = {'e': 'e._envgen_format()', 'i': 'e._interpolation_format()',
                 'a': 'e._at(0.25)', 'c': 'e._as_control_input()'}
